@@ -10,9 +10,10 @@ import (
 
 func init() {
 	register(&propCheck{
-		ID:    "C13",
-		Run:   runC13,
-		Level: "Static analysis (write-effect summaries from the abstract interpreter). Decides, for every Len / MarshalBinary / Read of every kind, that each store it performs (directly, through inlined helpers, or through the size functions and child encoders it calls) into memory reachable from the receiver has an idempotent form — a constant, a pure function of state the method does not write, f = round8(f), or a clamp — and that no call on receiver-rooted state reaches a standard-library mutator (bytes.Buffer Read/Write/Reset…, append into a receiver slice, copy into a receiver slice). With idempotent stores and everything else read-only, repeated and interleaved sizing/encoding return equal results. Not decided: builder calls after sizing; concurrent use (C14).",
+		ID:      "C13",
+		Run:     runC13,
+		NeedSSA: true,
+		Level:   "Static analysis (write-effect summaries from the abstract interpreter). Decides, for every Len / MarshalBinary / Read of every kind, that each store it performs (directly, through inlined helpers, or through the size functions and child encoders it calls) into memory reachable from the receiver has an idempotent form — a constant, a pure function of state the method does not write, f = round8(f), or a clamp — and that no call on receiver-rooted state reaches a standard-library mutator (bytes.Buffer Read/Write/Reset…, append into a receiver slice, copy into a receiver slice). With idempotent stores and everything else read-only, repeated and interleaved sizing/encoding return equal results. Not decided: builder calls after sizing; concurrent use (C14).",
 		Assumptions: []string{
 			"closed world: implementations of util.Message outside the module are out of scope",
 			"read-only standard-library methods are those listed in checker/rules_c13.go (readOnlyStd)",
@@ -130,6 +131,8 @@ func classifyStore(w *World, s *Store) (ok bool, form string) {
 }
 
 func runC13(w *World, r *Report) {
+	r.Rule("stateless", "sizing and encoding depend on no package-level state that a call can change: no pooled scratch, no cache, no shared table entry handed out", 8)
+	importStateless(w, r, "stateless")
 	r.Rule("idempotent", "every store of Len/MarshalBinary/Read into receiver-reachable memory has an idempotent form", 15)
 	r.Rule("readonly", "calls on receiver-rooted state reach only read-only standard-library methods", 20)
 	r.Rule("pure", "a size/encode method without any store into its receiver", 200)
